@@ -115,6 +115,9 @@ def run(r):
         for br in ('Pulse', 'Empty'):
             if cv[br] == 0 and not r.violations:
                 raise tlc.TLCError('per-combination vacuity guard: %s never took branch %s' % (key, br))
+    # end-to-end composition (Pipeline.tla): generator -> kernel -> antennas -> writer -> file -> reader -> file generator -> kernel
+    from checks import pipe
+    pipe.stage(r, 400 if thorough else 48)
     r.assumptions += ['scenario of a recorded run is derived from the observation (solutions reported by the real tracer, '
                       'off-cone computed from public path attributes)',
                       'physical correctness of signals is not examined (C01/C03/C07)']
